@@ -11,7 +11,7 @@ PID = "C20"
 
 def tlc_dump(module, cfg_text, tag):
     key = vlib.sha(vlib.spec_hash("Update.tla", module + ".tla"), cfg_text)
-    d = os.path.join(vlib.BUILD, "tlc", "upd-%s-%s" % (tag, key))
+    d = vlib.cache_dir("upd-%s" % tag, key)
     dump = os.path.join(d, "dump.ndjson")
     meta = os.path.join(d, "meta.json")
     if os.path.exists(meta):
@@ -53,6 +53,8 @@ def run(tier, seed):
         env = {k: v for k, v in os.environ.items() if k not in ("CI", "BLOCH_NO_UPDATE_CHECK", "BLOCH_OFFLINE")}
         import subprocess
         p = subprocess.run([exe, allf, res, os.path.join(tmp, "cache")], env=env, stdout=subprocess.PIPE, stderr=subprocess.PIPE, timeout=3000)
+        if p.returncode == 2:
+            raise vlib.Infra("update_harness: %s" % p.stderr.decode(errors="replace")[-500:])     # its own usage / input error
         if p.returncode != 0 or not os.path.exists(res):
             # the updater crashed on an input (uncaught exception -> abort, or a signal): that is a violation of
             # "never crashes on one"; report with what we have
